@@ -147,6 +147,19 @@ func (w *world) apply(li int, mode int) (o obs, ps []*problem) {
 				added, err = w.hvs.AddVote(vote, hvsPeerKey)
 			}
 		})
+		if !pan && w.path == "hvs" && l.st != w.main && w.implSet(l.st) == nil {
+			// HeightVoteSet declined to track that round/type at all (its
+			// catch-up policy is not part of this property): the vote must not
+			// have been counted anywhere.
+			o.class, o.resp = "hvs-step-not-tracked", fmt.Sprintf("added=%v/err=%s", added, errClass(err))
+			if added {
+				return o, []*problem{{site: "HeightVoteSet.AddVote", kind: "vote-for-untracked-step-added", letter: l.Kind, detail: fmt.Sprintf("AddVote(%s) returned added=true but no vote set exists for round %d type %d", l.Name, l.st.Round, l.st.Type)}}
+			}
+			if mode != modeReplay {
+				ps = w.checkAll(l, mode == modeFull)
+			}
+			return o, ps
+		}
 		r := w.target(l)
 		if pan {
 			// A panic on an offered vote is itself a failure (reported under the
